@@ -136,6 +136,9 @@ fn gen_inherent_impl_items(
         syn::ImplItem::Fn(item) => {
             let syn::ImplItemFn { attrs, sig, .. } = &item;
 
+            let mut sig = sig.clone();
+            name_fn_arg_patterns(&mut sig);
+
             syn::parse_quote! {
                 #(#attrs)*
                 #sig;
@@ -143,6 +146,26 @@ fn gen_inherent_impl_items(
         }
         item => abort!(item, "Not supported"),
     })
+}
+
+/// Replace every argument pattern that is not a plain identifier (`_`, `(a, b)`, `mut x`)
+/// with a generated identifier: such a pattern can neither be passed on as an argument
+/// nor appear in a function without a body
+pub fn name_fn_arg_patterns(sig: &mut syn::Signature) {
+    for (idx, input) in sig.inputs.iter_mut().enumerate() {
+        if let syn::FnArg::Typed(arg) = input {
+            let is_plain_ident = matches!(
+                &*arg.pat,
+                syn::Pat::Ident(pat)
+                    if pat.by_ref.is_none() && pat.mutability.is_none() && pat.subpat.is_none()
+            );
+
+            if !is_plain_ident {
+                let arg_ident = format_ident!("_arg{}", idx);
+                arg.pat = syn::parse_quote!(#arg_ident);
+            }
+        }
+    }
 }
 
 /// Generate ident of the helper trait
